@@ -566,8 +566,8 @@ fn pulse_case() -> impl Strategy<Value = PulseCase> {
 }
 
 fn run(r: &Run) {
-    r.prop("assembly_model", r.tier.pick(15_000, 600_000), case, oracle);
-    r.prop("single_pulse_hook_free", r.tier.pick(6_000, 120_000), pulse_case, pulse_oracle);
+    r.prop("assembly_model", r.tier.pick(15_000, 6_000_000), case, oracle);
+    r.prop("single_pulse_hook_free", r.tier.pick(6_000, 1_000_000), pulse_case, pulse_oracle);
     // all 256 wires once, systematically
     r.enumerate("single_pulse_every_wire", 256, |w, ev| pulse_oracle(&PulseCase { wire: w as u16, bin: 40 + (w % 50) as u16, row: 1 + (w * 2) as u16, wire_amp: 100.0, pad_amp: 600.0 }, ev));
 }
